@@ -24,15 +24,18 @@ import (
 )
 
 var shimOf = map[string]string{
-	"os":          "simos",
-	"sync":        "simsync",
-	"sync/atomic": "simatomic",
-	"time":        "simtime",
-	"crypto/rand": "simrand",
+	"os":           "simos",
+	"sync":         "simsync",
+	"sync/atomic":  "simatomic",
+	"time":         "simtime",
+	"crypto/rand":  "simrand",
+	"math/rand":    "simmrand",
+	"math/rand/v2": "simmrand2",
 }
 
 var defaultName = map[string]string{
 	"os": "os", "sync": "sync", "sync/atomic": "atomic", "time": "time", "crypto/rand": "rand",
+	"math/rand": "rand", "math/rand/v2": "rand",
 }
 
 type edit struct {
@@ -54,14 +57,14 @@ type fileCtx struct {
 	path    string
 }
 
-func (c *fileCtx) off(p token.Pos) int { return c.fset.Position(p).Offset }
+func (c *fileCtx) off(p token.Pos) int  { return c.fset.Position(p).Offset }
 func (c *fileCtx) line(p token.Pos) int { return c.fset.Position(p).Line }
 
 func (c *fileCtx) replace(pos, end token.Pos, text string) {
 	c.edits = append(c.edits, edit{c.off(pos), c.off(end), text, len(c.edits)})
 }
 func (c *fileCtx) insert(pos token.Pos, text string) { c.replace(pos, pos, text) }
-func (c *fileCtx) text(pos, end token.Pos) string   { return string(c.src[c.off(pos):c.off(end)]) }
+func (c *fileCtx) text(pos, end token.Pos) string    { return string(c.src[c.off(pos):c.off(end)]) }
 func (c *fileCtx) fail(p token.Pos, msg string) {
 	c.errs = append(c.errs, fmt.Sprintf("%s:%d: %s", c.path, c.line(p), msg))
 }
